@@ -298,6 +298,15 @@ func c20Cross(c *mc.Ctx, k c20Case) {
 	}
 }
 
+func c20CrossAll(c *mc.Ctx) {
+	for _, n := range []int{16384, 65536, 64, 8192} { // the big buffers first: those cases fail on their own
+		for _, ij := range [][2]int{{0, 1}, {3, 3}, {5, 37}, {0, 64}, {n/2 - 10, n/2 - 1}, {10, 10 + 65}} {
+			c.Distinct("cross", n, ij)
+			c20Cross(c, c20Case{Kind: "cross", N: n, I: ij[0], J: ij[1]})
+		}
+	}
+}
+
 func c20Enumerate(c *mc.Ctx) {
 	guard := func(k c20Case, f func(*mc.Ctx, c20Case)) {
 		if pi := mc.Try(func() { f(c, k) }); pi != nil {
@@ -332,12 +341,7 @@ func c20Enumerate(c *mc.Ctx) {
 			}
 		}
 	}
-	for _, n := range []int{64, 8192, 16384, 65536} {
-		for _, ij := range [][2]int{{0, 1}, {3, 3}, {5, 37}, {0, 64}, {n/2 - 10, n/2 - 1}, {10, 10 + 65}} {
-			c.Distinct("cross", n, ij)
-			c20Cross(c, c20Case{Kind: "cross", N: n, I: ij[0], J: ij[1]})
-		}
-	}
+	c20CrossAll(c)
 	c20Run(c, c20Case{Kind: "nil-b2s"})
 	c20Run(c, c20Case{Kind: "empty-s2b"})
 	c.Sample("b2s", c20Case{Kind: "b2s", N: 9, I: 2, J: 5, K: 7})
@@ -370,7 +374,10 @@ func init() {
 				case "huge":
 					f = c20Huge
 				case "cross":
-					f = c20Cross
+					// a conversion that remembers earlier arguments keeps process-wide state: whether one cross case fails
+					// depends on the conversions made before it.  The replay therefore runs the whole cross enumeration
+					// (in the recorded order) and reports the first case that fails, under the same signature.
+					f = func(c *mc.Ctx, _ c20Case) { c20CrossAll(c) }
 				}
 				if pi := mc.Try(func() { f(c, k) }); pi != nil {
 					c.Violate("conv", "C20|"+k.Kind+"|panic", fmt.Sprintf("%s case %+v: panic: %s at %s", k.Kind, k, pi.Msg, pi.Frame), k)
